@@ -111,6 +111,31 @@ theorem C06_topics_disjoint (name : Str) (rs1 st1 rs2 st2 : Int)
   · exact absurd h.symm (C06_delete_ne_rsc name)
   · simp
 
+/-- AWAIT (decision regenerated from await.go): the caller is released — the event is not skipped — only if the event passed
+the foreign-ID / run-ID filters AND its type is the awaited status; and the type of the event describing a write is the
+status of that write (as an int32). So a release is caused by an event recording that the awaited run was written at the
+awaited status; a pause, cancellation or completion at any OTHER status on the shared run-state-change topic is skipped.
+(Before the repair of defect F2 the test was the filter alone: `Await(terminal)` was released by a Pause.) -/
+theorem C06_await_release (filtered : Bool) (ty status : Int) (h : Gen.G.awaitSkip filtered ty status = false) :
+    filtered = false ∧ ty = status := by
+  simp only [Gen.G.awaitSkip, Bool.or_eq_false_iff, decide_eq_false_iff_not, ne_eq, Classical.not_not] at h
+  exact h
+
+theorem toInt32_id (x : Int) (h1 : -2147483648 ≤ x) (h2 : x < 2147483648) : toInt32 x = x := by
+  unfold toInt32
+  have e : x.emod 4294967296 = x % 4294967296 := rfl
+  simp only [e]
+  by_cases hc : x % 4294967296 ≥ 2147483648
+  · simp only [hc, if_true]; omega
+  · simp only [hc, if_false]; omega
+
+theorem C06_await_release_write (filtered : Bool) (w : Rec) (status : Int) (hr : -2147483648 ≤ w.status ∧ w.status < 2147483648)
+    (h : Gen.G.awaitSkip filtered (route w).type status = false) : w.status = status := by
+  have := (C06_await_release filtered _ status h).2
+  simp only [route] at this
+  rw [toInt32_id _ hr.1 hr.2] at this
+  exact this
+
 /-- non-vacuity / sanity: concrete instances ("my flow", -7 ↦ "my_flow--7"; run state 12 is out of range) -/
 example : topic [109, 121, 32, 102] (-7) = [109, 121, 95, 102, 45, 45, 55] := by
   simp [topic, join, intDec, natDigits, replSpace, Gen.topicSeparator, Gen.emptySpaceReplacement]
